@@ -184,6 +184,15 @@ Theorem C10_header_only_reads_nothing : src_header_only_reads_nothing = true ->
 Proof. exact header_only_reads_nothing. Qed.
 Print Assumptions C10_header_only_reads_nothing.
 
+(* Decoder::decode makes its tests in the order of the source (translated on every run):
+   a header when none is pending, waiting for its 24 bytes; an announced body above the
+   item size limit answered at once, before any of it is waited for; the whole body
+   awaited; then parse_request *)
+Theorem C10_decode_steps_are_source : src_decode_steps_ok = true ->
+  forall c src, decode c src = run_steps src_decode_steps c src.
+Proof. exact decode_steps_are_source. Qed.
+Print Assumptions C10_decode_steps_are_source.
+
 (* the generic reader on a concrete set body (8 + 1 + 2 bytes) *)
 Example C10_read_body_nonvacuous :
   read_body (mkHdr 128 1 1 8 0 0 11 0 0) src_body_reads_set
